@@ -185,13 +185,9 @@ impl CompoundSelector {
             buf.add_char('%');
             buf.add_str(p);
         }
-        if let Some(id) = &self.id {
-            buf.add_char('#');
-            buf.add_str(id);
-        }
-        for c in &self.classes {
-            buf.add_char('.');
-            if let Some((c, rest)) = c.as_bytes().split_first()
+        // A name that starts with a digit needs that digit escaped.
+        fn write_name(buf: &mut CssBuf, name: &str) {
+            if let Some((c, rest)) = name.as_bytes().split_first()
                 && c.is_ascii_digit()
                 && let Ok(rest) = str::from_utf8(rest)
             {
@@ -199,8 +195,16 @@ impl CompoundSelector {
                 let _ = write!(buf, "\\{c:x} ");
                 buf.add_str(rest);
             } else {
-                buf.add_str(c);
+                buf.add_str(name);
             }
+        }
+        if let Some(id) = &self.id {
+            buf.add_char('#');
+            write_name(buf, id);
+        }
+        for c in &self.classes {
+            buf.add_char('.');
+            write_name(buf, c);
         }
         for attr in &self.attr {
             attr.write_to(buf);
